@@ -180,7 +180,10 @@ func (w *vworld) cleanup() {
 
 var vworldSeq uint32
 
-func newWorld(slow bool) *vworld {
+func newWorld(slow bool) *vworld { return newWorldR(slow, false) }
+
+// newWorldR: with refuseDown EdgeX refuses the first Down report (it is not recorded as a report: EdgeX never took it)
+func newWorldR(slow, refuseDown bool) *vworld {
 	n := atomic.AddUint32(&vworldSeq, 1)
 	pid := uint32(os.Getpid())
 	ip := fmt.Sprintf("127.%d.%d.%d", 16+(pid%200), (n/250)%250, 1+n%250)
@@ -190,6 +193,9 @@ func newWorld(slow bool) *vworld {
 		w.conns[i] = make(chan net.Conn, 4)
 	}
 	m := &mocks.DeviceServiceSDK{}
+	if refuseDown {
+		m.On("UpdateDeviceOperatingState", mock.Anything, contract.OperatingState(contract.Down)).Return(fmt.Errorf("core-metadata unavailable")).Once()
+	}
 	m.On("UpdateDeviceOperatingState", mock.Anything, mock.Anything).Run(func(args mock.Arguments) {
 		r := "?"
 		if args.String(0) != w.name {
@@ -245,6 +251,7 @@ type vscript struct {
 	toks   []string
 	silent bool // handshakeFail is played as accept-then-silent (60 s read timeout); thorough only
 	slow   bool // the SDK takes vSlowSDK to process an Up report (two connection events can then overlap)
+	refuse bool // EdgeX refuses the first Down report: the service must report Down again when the attempts keep failing
 	long   bool // every "dr" holds the established connection for more than a keep-alive interval before dropping it; thorough only
 	rej    bool // "cl" is played by the READER: it rejects the service's own SetReaderConfig, so the service resets the connection itself
 }
@@ -259,6 +266,9 @@ func (s vscript) request() string {
 	}
 	if s.long {
 		verb = "supervisor-long"
+	}
+	if s.refuse {
+		verb = "supervisor-refuse"
 	}
 	return fmt.Sprintf("%s %d %s", verb, s.up, strings.Join(s.toks, " "))
 }
@@ -288,7 +298,7 @@ func runScript(s vscript, variant uint64) (obs string) {
 			obs = fmt.Sprintf("panic:%v", r)
 		}
 	}()
-	w := newWorld(s.slow)
+	w := newWorldR(s.slow, s.refuse)
 	defer w.cleanup()
 	st := contract.OperatingState(contract.Down)
 	if s.up != 0 {
@@ -692,6 +702,11 @@ func TestVerifC15(t *testing.T) {
 	} {
 		scripts = append(scripts, vscript{up: 0, toks: t, slow: true}, vscript{up: 1, toks: t, slow: true})
 	}
+	// EdgeX refuses the first Down report (the refusal is not a report): two more failed attempts later the service
+	// reports Down again, so what EdgeX has taken is what the model says for the same attempts
+	for _, t := range [][]string{{"df", "df", "df", "df"}, {"hf", "df", "df", "hf", "dr"}, {"df", "df", "df", "df", "df", "df"}} {
+		scripts = append(scripts, vscript{up: 1, toks: t, refuse: true})
+	}
 	// the reader refuses the service's own SetReaderConfig: the service resets the connection itself (a local close)
 	nrej := 0
 	for _, b := range scripts {
@@ -720,11 +735,12 @@ func TestVerifC15(t *testing.T) {
 		slow := f[0] == "slow"
 		rej := f[0] == "rej"
 		long := f[0] == "long"
-		if slow || rej || long {
+		refuse := f[0] == "refuse"
+		if slow || rej || long || refuse {
 			f = f[1:]
 		}
 		up, _ := strconv.Atoi(f[0])
-		scripts = []vscript{{up: up, toks: f[1:], slow: slow, rej: rej, long: long}}
+		scripts = []vscript{{up: up, toks: f[1:], slow: slow, rej: rej, long: long, refuse: refuse}}
 	}
 
 	results := make([]string, len(scripts))
